@@ -20,6 +20,8 @@ MIXES = {
     'all': {'lonlat_to_cell': 6, 'cell_to_lonlat': 6, 'cell_to_boundary': 6, 'cell_to_parent': 2,
             'cell_to_children': 2, 'get_resolution': 1, 'get_res0_cells': 1, 'get_num_cells': 1,
             'cell_area': 1, 'compact': 2, 'uncompact': 2, 'hex_to_u64': 1, 'u64_to_hex': 1},
+    'coarse': {'get_res0_cells': 2, 'cell_to_children': 5, 'uncompact': 4, 'cell_to_parent': 1, 'compact': 2,
+               'get_resolution': 1, 'cell_to_lonlat': 1, 'cell_to_boundary': 1},
     'hier': {'cell_to_parent': 2, 'cell_to_children': 3, 'get_resolution': 1, 'get_res0_cells': 2,
              'compact': 3, 'uncompact': 3, 'hex_to_u64': 1, 'u64_to_hex': 1, 'get_num_cells': 1, 'cell_area': 1},
 }
@@ -152,13 +154,54 @@ class Gen:
         return r.choice([0, 1, 2, 3, (1 << 64) - 1, 63 << 58, (61 << 58) | (1 << 56), 1 << 63,
                          r.getrandbits(64), r.getrandbits(64) | 1, -1, -(1 << 57), (12 << 58) | (1 << 57)])
 
+    def coarse_cell(self):
+        """The world cell, a resolution-0 cell or a resolution-1 cell (the special, non-Hilbert levels)."""
+        r = self.rng
+        x = r.random()
+        if x < 0.2:
+            return 0
+        if x < 0.65:
+            return (r.randrange(12) << 58) | (1 << 57)
+        return (r.randrange(60) << 58) | (1 << 56)
+
+    def coarse_call(self, f):
+        r = self.rng
+        c = self.coarse_cell()
+        cr = res_of(c)
+        if f == 'cell_to_children':
+            if r.random() < 0.3:
+                return mk(f, c)
+            return mk(f, c, min(3, max(cr, 0) + r.randint(0, 2)) if cr >= 0 else r.choice([0, 0, 1]))
+        if f == 'uncompact':
+            lst = [self.coarse_cell() for _ in range(r.randint(1, 3))]
+            if 0 in lst:
+                return mk(f, [0] if r.random() < 0.7 else lst[:1] + [0], r.choice([0, 0, 1]))
+            top = max(res_of(x) for x in lst)
+            return mk(f, lst, min(3, top + r.randint(0, 2)))
+        if f == 'compact':
+            ch = self.ctx.value(mk('cell_to_children', c, min(2, max(cr, 0) + 1) if cr >= 0 else 0)) or []
+            ch = list(ch)
+            if r.random() < 0.3 and len(ch) > 1:
+                del ch[r.randrange(len(ch))]
+            r.shuffle(ch)
+            return mk(f, ch)
+        if f == 'cell_to_parent':
+            return mk(f, c) if r.random() < 0.5 else mk(f, c, r.randint(-1, max(-1, cr)))
+        if f == 'cell_to_boundary':
+            return mk(f, c, {'segments': 1})
+        if f == 'get_res0_cells':
+            return mk(f)
+        return mk(f, c)
+
     def cell(self, base=None):
         """base = (point, res) anchor or None."""
         r = self.rng
         x = r.random()
-        if x < 0.04:
+        if x < 0.03:
+            return self.coarse_cell()
+        if x < 0.06:
             return self.weird_cell()
-        if x < 0.16:
+        if x < 0.17:
             return self.synth_cell()
         if base is not None and x < 0.8:
             p, res = base
@@ -249,6 +292,8 @@ class Gen:
     def call(self, mix='all', base=None, fname=None):
         r = self.rng
         f = fname or wchoice(r, MIXES[mix])
+        if mix == 'coarse' and f != 'lonlat_to_cell':
+            return self.coarse_call(f)
         if f == 'lonlat_to_cell':
             if base is not None and r.random() < 0.75:
                 p, res = base
